@@ -113,7 +113,7 @@ def run(ctx):
 
     # 2. binding: behaviours from TLC -simulate, replayed on the real stack
     nruns = 8 if thorough else 2
-    per_run = 110 if thorough else 45
+    per_run = 110 if thorough else 70
     behaviours = []
     for i in range(nruns):
         behaviours += ctx.tlc_simulate(FAMILY, "RpcEventsMBT.tla", "RpcEvents_sim.cfg", depth=(STEPS + 1) * per_run,
